@@ -93,29 +93,37 @@ Definition Ordered (ty : etype) (v : N) (items : list (option N)) : Prop := orde
      check_multiplicity (only when the content so far is not empty): container group Sequence/Choice, multiplicity not Any,
        and an earlier child carries the same NAME -> TooManySubElements
    [loader_complaints] returns, in order, (true, name) for an ElementChoiceConflict and (false, name) for a
-   TooManySubElements; None when a name does not resolve. *)
-Definition container_seq_or_choice (ty : etype) (ix : list N) : bool :=
-  match get_sub_element_container_mode T ty ix with
-  | Val m => (m =? MSequence) || (m =? MChoice)
-  | _ => false
-  end.
-
-Definition choice_conflict (ty : etype) (prev ix : list N) : bool :=
+   TooManySubElements; None when a name does not resolve or a table access of the Rust would panic. *)
+(* Some true: ElementChoiceConflict;  None: the Rust would panic (a table index) *)
+Definition choice_conflict (ty : etype) (prev ix : list N) : option bool :=
   match prev with
-  | [] => false
-  | _ => if ix_eqb prev ix then false else
+  | [] => Some false
+  | _ => if ix_eqb prev ix then Some false else
          match find_common_group T ty prev ix with
-         | Val g => match group_mode g with Some m => m =? MChoice | None => false end
-         | _ => false
+         | Val g => match group_mode g with
+                    | Some m => if m =? MCharacters then None else Some (m =? MChoice)
+                    | None => None
+                    end
+         | _ => None
          end
   end.
 
-Definition too_many (ty : etype) (ix : list N) (name : N) (seen : list (option N)) : bool :=
+(* Some true: TooManySubElements *)
+Definition too_many (ty : etype) (ix : list N) (name : N) (seen : list (option N)) : option bool :=
   match seen with
-  | [] => false
-  | _ => container_seq_or_choice ty ix
-         && match get_sub_element_multiplicity T ty ix with Val (Some m) => negb (m =? 2) | _ => false end
-         && existsb (fun s => match s with Some n => n =? name | None => false end) seen
+  | [] => Some false
+  | _ =>
+    match get_sub_element_container_mode T ty ix with
+    | Val m =>
+      if (m =? MSequence) || (m =? MChoice) then
+        match get_sub_element_multiplicity T ty ix with
+        | Val (Some mu) => Some (negb (mu =? 2) && existsb (fun s => match s with Some n => n =? name | None => false end) seen)
+        | Val None => Some false
+        | _ => None
+        end
+      else Some false
+    | _ => None
+    end
   end.
 
 Fixpoint loader_scan (ty : etype) (v : N) (prev : list N) (seen : list (option N)) (items : list (option N))
@@ -127,11 +135,10 @@ Fixpoint loader_scan (ty : etype) (v : N) (prev : list N) (seen : list (option N
     match idx_of ty v name with
     | None => None
     | Some ix =>
-      match loader_scan ty v ix (seen ++ [Some name]) r with
-      | None => None
-      | Some rest =>
-        Some ((if choice_conflict ty prev ix then [(true, name)] else [])
-              ++ (if too_many ty ix name seen then [(false, name)] else []) ++ rest)
+      match choice_conflict ty prev ix, too_many ty ix name seen, loader_scan ty v ix (seen ++ [Some name]) r with
+      | Some cc, Some tm, Some rest =>
+        Some ((if cc then [(true, name)] else []) ++ (if tm then [(false, name)] else []) ++ rest)
+      | _, _, _ => None
       end
     end
   end.
